@@ -138,7 +138,7 @@ def run(tier):
     texts = [t for t in texts if all(not (0xD800 <= ord(c) <= 0xDFFF) for c in t)]
     items = [{"text": cps(t)} for t in texts] + stress_inputs()
     obs, crashes = wc.run_harness_lines("parse-only", os.path.join(wd, "tv.in"), os.path.join(wd, "tv.out"), items,
-                                        timeout=900)
+                                        timeout=900, max_crashes=4, stall=30)
     for idx, reason in crashes:
         it = items[idx]
         v.violation("a parser crashed the process or did not terminate (%s)" % reason,
